@@ -18,7 +18,7 @@ RULE = ("algebra elements: rotation vector = axis (all directions incl. coordina
         "mpmath matrix exponential for exp; for L=log(T): finite, real, algebra form, |rotation|<=pi, reference exp(L)=T; "
         "log(exp S)=S for |w|<=pi-1e-6. Non-trivial: rotation magnitude < 1e-6, or within 1e-4 of pi, or |t| > 1e3, or pure "
         "translation, or matrix form.")
-RULE = RULE + probes.RULE_TEXT + (probes.AUG_TEXT if PROPERTY_ID in probes.AUG_PROPS else "")
+RULE = RULE + probes.RULE_TEXT + (probes.AUG_TEXT if PROPERTY_ID in probes.AUG_PROPS else "") + probes.VARIANT_TEXT
 ASSUMPTIONS = ["mpmath (50 digits, scaling-and-squaring Taylor series) is the reference exponential; the closed-form reference in pbt/refs.py is cross-checked against it at start-up",
                "tolerance 1e-7*max(1,|t|)", "rotation magnitudes in (2e-15, 1e-12) are not generated (the statement starts at 1e-12)",
                "SE2.Exp/SO2.Exp receive ndarrays: a Python list there is documented as a sequence of elements"]
@@ -135,7 +135,7 @@ def _thetatype(case):
 
 
 def check_case(case):
-    if case.get("kind") in ("hist", "aug"):
+    if case.get("kind") in ("hist", "aug", "variant"):
         return probes.run(case, PROPERTY_ID)
     return {"exp3": _exp3, "log3": _log3, "exp2": _exp2, "log2": _log2, "thetatype": _thetatype}[case["kind"]](case)
 
@@ -389,7 +389,7 @@ def _log2(case):
 
 
 def classify(case):
-    if case.get("kind") in ("hist", "aug"):
+    if case.get("kind") in ("hist", "aug", "variant"):
         return probes.classify(case)
     if case.get("kind") == "thetatype":
         return {"kind:thetatype": True, "thetatype:" + case["type"]: True, "deg": case["unit"] == "deg", "nontrivial": case["type"] not in ("float", "np.float64")}
